@@ -127,7 +127,7 @@ mutual
         | dict t ys =>
           simp only [lt, rankCmp_same hk, rankCmp_same hk', eq_dict]
           simp only [comparable, Bool.and_eq_true] at hx hy
-          exact triItems ok num xs ys hx.1 hx.2 hy.1 hy.2
+          exact triItems ok num none xs ys hx.1 hx.2 hy.1 hy.2
         | atom b => cases b <;> simp [kindOf, atomKind] at hk
         | _ => simp [kindOf] at hk
       | obj c xs =>
@@ -137,7 +137,7 @@ mutual
           subst hcd
           simp only [lt, rankCmp_same hk, rankCmp_same hk', eq_obj, if_true, beq_self_eq_true, Bool.true_and]
           simp only [comparable, Bool.and_eq_true] at hx hy
-          exact triItems ok num xs ys hx.1 hx.2 hy.1 hy.2
+          exact triItems ok num (some (env.fields c)) xs ys hx.1 hx.2 hy.1 hy.2
         | _ => simp [kindOf] at hk
     · exact tri_diff ok hk
   theorem triList (ok : EnvOk env) (num : Bool) (xs : List Val) : ∀ ys : List Val,
@@ -158,9 +158,9 @@ mutual
         obtain ⟨tl, tle⟩ := triList ok num xs ys hx.2 hy.2
         simp only [ltList, eqList, hde, tle]
         exact ⟨Tri.cons hd tl, trivial⟩
-  theorem triItems (ok : EnvOk env) (num : Bool) (xs : List (Atom × Val)) : ∀ ys : List (Atom × Val),
-      ascKeys env xs = true → comparableItems env num xs = true →
-      ascKeys env ys = true → comparableItems env num ys = true →
+  theorem triItems (ok : EnvOk env) (num : Bool) (sh : Option (List Atom)) (xs : List (Atom × Val)) : ∀ ys : List (Atom × Val),
+      keysOk env sh xs = true → comparableItems env num xs = true →
+      keysOk env sh ys = true → comparableItems env num ys = true →
       Tri (ltItems env xs ys) (eqD xs ys) (ltItems env ys xs) ∧ eqD ys xs = eqD xs ys := by
     intro ys ax hx ay hy
     cases xs with
@@ -184,7 +184,7 @@ mutual
           exact ⟨by simpa using this, trivial⟩
         · have hk' : atomEq k' k = true := by rw [atomEq_symm]; exact hk
           obtain ⟨hd, hde⟩ := tri ok num v w hx.1 hy.1
-          obtain ⟨tl, tle⟩ := triItems ok num xs ys (ascKeys_cons ax).2 hx.2 (ascKeys_cons ay).2 hy.2
+          obtain ⟨tl, tle⟩ := triItems ok num (shTail sh) xs ys (keysOk_tail ax) hx.2 (keysOk_tail ay) hy.2
           rw [eqD_cons_eq ok ax ay hk, eqD_cons_eq ok ay ax hk']
           simp only [ltItems, hk, hk', if_true, hde, tle]
           exact ⟨Tri.cons hd tl, trivial⟩
